@@ -105,9 +105,48 @@ def _tree_shape(t):
     return "?", 0, 1
 
 
+_TH_LEAVES = {"x": [(0xC0, "OP_1")], "y": [("c0", ["OP_1"])], "z": ["OP_1"], "w": []}
+
+
+def _py_tree(text):
+    """the nested Python list a letter tree denotes, built WITHOUT recursion (the text nests to 10^4)"""
+    stack, cur = [], None
+    for ch in text:
+        if ch == "{":
+            stack.append([])
+        elif ch == ",":
+            stack[-1].append(cur)
+        elif ch == "}":
+            node = stack.pop()
+            node.append(cur)
+            cur = node
+        else:
+            cur = list(_TH_LEAVES[ch]) if ch in _TH_LEAVES else [(0xC0, ["OP_1"])]
+    return cur
+
+
+def _treehelper(text):
+    from btclib.exceptions import BTClibTypeError
+    from btclib.script import taproot
+    try:
+        info, _root = taproot.tree_helper(_py_tree(text))
+    except Exception as e:  # noqa: BLE001
+        if common.err_class(e).startswith("foreign"):
+            return "err foreign:" + type(e).__name__
+        m = str(e)
+        for k, v in (("nesting levels", "deep"), ("invalid script tree node", "node"), ("invalid script tree leaf", "leaf"),
+                     ("invalid leaf version type", "vtype")):
+            if k in m:
+                return "err " + v
+        return "err stype" if isinstance(e, BTClibTypeError) else "err other:" + m[:60]
+    return f"ok depth={max(len(p) for _, p in info) // 32} leaves={len(info)}"
+
+
 def impl(line: str) -> str:
     t = line.split(" ")
     op = t[0]
+    if op == "treehelper":
+        return _treehelper(t[1])
     try:
         if op == "limit":
             return "ok " + str(_limit(t[1]))
@@ -287,6 +326,32 @@ def _merge(ctx, res):
                      oracle={"oracle": f["witness"].get("_oracle", "call") if isinstance(f["witness"], dict) else "call", "witness": f["witness"]})
 
 
+def _balanced(s):
+    """a well-formed letter tree: a letter, or `{TREE,TREE}` (checked without recursion)"""
+    st = []
+    prev = ""
+    for ch in s:
+        if ch == "{":
+            if prev not in ("", "{", ","):
+                return False
+            st.append(0)
+        elif ch == ",":
+            if not st or st[-1] != 0 or prev in ("{", ",", ""):
+                return False
+            st[-1] = 1
+        elif ch == "}":
+            if not st or st[-1] != 1 or prev in ("{", ","):
+                return False
+            st.pop()
+        elif ch.islower():
+            if prev not in ("", "{", ","):
+                return False
+        else:
+            return False
+        prev = ch
+    return not st and prev != ""
+
+
 # ----------------------------------------------------------------------------- correspondence streams
 def _stream_lines(ctx):
     rng = ctx.rng
@@ -345,6 +410,18 @@ def _stream_lines(ctx):
         trees.append("{a," * d + "b" + "}" * d)
         trees.append("{{a,b}," * d + "c" + "}" * d)
     lines["tree"] = [f"tree {s}" for s in trees if s and " " not in s]
+    # taproot.tree_helper on the Python values the same texts denote (well-formed ones; the bound under test is
+    # tree_helper's own), with malformed leaves, and spines around MAX_TREE_DEPTH and far beyond the interpreter's stack
+    th = [s for s in trees if _balanced(s)]
+    for s in list(th[:60]):
+        for bad in "xyzw":
+            i = [k for k, c in enumerate(s) if c.islower()]
+            if i:
+                k = rng.choice(i)
+                th.append(s[:k] + bad + s[k + 1:])
+    for d in (127, 128, 129, 130, 1000, 3000):
+        th += ["{" * d + "a" + ",b}" * d, "{a," * d + "b" + "}" * d, "{" * d + "x" + ",b}" * d, "{a," * d + "w" + "}" * d]
+    lines["treehelper"] = [f"treehelper {s}" for s in th]
     return lines
 
 
